@@ -19,9 +19,6 @@ theorem every_entry_is_managed :
        (Generated.callGraph.filter (fun g => g.caller == e.1)).all (fun g => !g.usesResult && !g.undecorated) = true) := by
   decide +kernel
 
-/-- there are 80 service entry points -/
-theorem entry_count : Generated.clientEntries.length = 80 := by decide +kernel
-
 /-- the seed/key composite calls both inner methods undecorated (C13) -/
 theorem unlock_calls :
     Generated.callGraph.filter (fun g => g.caller == "unlock_security_access") =
